@@ -5,31 +5,27 @@ compiler/util/attribute_util.py, the attribute-type table of attribute_checker.p
 The model works on *resolved* expressions: name resolution is C12's business, so a
 reference carries what `ir_util.find_object` would return for it (the expression type
 of a parameter / physical field, or — for virtual fields — the referred
-`read_transform` itself, inlined; dependency cycles are rejected by an earlier pass, so
-the unfolding is a finite tree).  Everything is as *coded*, quirks included; the model
-has an explicit `crash` value for the places where the Python raises.
+`read_transform` itself, inlined together with the module file it lives in; dependency
+cycles are rejected by an earlier pass, so the unfolding is a finite tree).  Everything is
+as *coded* (tree after the round-1 `fix:` commits: dcbfea8, d73ff7c, 920a074, 8dfcbea,
+d3c862a, e5f0b26, e20b103, f3b27d5, 3c25ce4, 74b10f8, d07ebca), quirks included.
 -/
 namespace Emboss.Types
 
-/-- `Expression.type`: `absent` = the attribute is `None` (the checker gave up before
-creating it: `expr.type.which_type` raises); `unset` = an empty `ExpressionType`
-(`which_type is None`), which is what copying an absent type through a reference yields. -/
+/-- `reader(expr).type.which_type`.  `none` = `which_type is None`: either `expr.type` is
+missing altogether (the checker returned before annotating: failed comparison / `?:`,
+static reference to something that has no type, `$next`) or it is an empty
+`ExpressionType` (such a type copied through a reference).  Since dcbfea8 every read in
+`type_check.py` goes through `ir_data_utils.reader`, which does not tell the two apart;
+the three places outside that still read `.type.which_type` directly are modelled as
+raising on `none` (see `Crash`). -/
 inductive Ty
-  | int | bool | enum (n : Nat) | opaque | unset | absent
+  | int | bool | enum (n : Nat) | opaque | none
   deriving DecidableEq, Repr
 
-/-- `ir_data_utils.builder(e).type.CopyFrom(other.type)`. -/
-def Ty.copied : Ty → Ty
-  | .absent => .unset
-  | t => t
-
-/-- `reader(e).type.which_type` is truthy. -/
-def Ty.annotated : Ty → Bool
-  | .unset | .absent => false
-  | _ => true
-
 /-- What a declaration can give a parameter or physical field
-(`unbounded_expression_type_for_physical_type`): never "no type". -/
+(`unbounded_expression_type_for_physical_type`): never "no type".  Enumerations are
+numbered by the harness per *(module file, object path)* — `hashable_form_of_reference`. -/
 inductive DTy
   | int | bool | enum (n : Nat) | opaque
   deriving DecidableEq, Repr
@@ -51,6 +47,9 @@ structure Loc where
   syn : Bool
   deriving DecidableEq, Repr
 
+/-- A module file (`source_file_name` / `canonical_name.module_file`), numbered by the harness. -/
+abbrev FileId := Nat
+
 inductive BinOp
   | add | sub | mul | and | or | eq | ne | lt | le | gt | ge
   deriving DecidableEq, Repr
@@ -59,27 +58,33 @@ inductive Fn
   | max | present | upper | lower
   deriving DecidableEq, Repr
 
+/-- `builtin_reference`: the two typed builtins, and anything else (`$next` surviving
+`synthetics.desugar`, i.e. outside a field location). -/
+inductive Builtin
+  | isStaticallySized | staticSizeInBits | other
+  deriving DecidableEq, Repr
+
 /-- Resolved expressions (`ir_data.Expression` after `resolve_field_references`). -/
 inductive Expr
   | num (l : Loc)                          -- constant
   | boolc (l : Loc)                        -- boolean_constant
   | enumv (l : Loc) (n : Nat)              -- constant_reference → EnumValue of enum n
-  | cphys (l : Loc) (dl : Loc)             -- constant_reference → physical field (at dl)
-  | cvirt (l : Loc) (d : Expr)             -- constant_reference → virtual field with read_transform d
+  | cphys (l : Loc) (df : FileId) (dl : Loc) -- constant_reference → physical field (defined in df at dl)
+  | cvirt (l : Loc) (df : FileId) (d : Expr) -- constant_reference → virtual field of module df with read_transform d
   | cother (l : Loc)                       -- constant_reference → anything else (a runtime parameter)
   | lparam (l : Loc) (t : DTy)             -- field_reference → runtime parameter of atomic physical type
   | lparamArr (l : Loc)                    -- field_reference → runtime parameter declared with an array type
   | lphys (l : Loc) (t : DTy)              -- field_reference → physical field (opaque for arrays/structs)
-  | lvirt (l : Loc) (d : Expr)             -- field_reference → virtual field with read_transform d
-  | builtin (l : Loc) (isBool : Bool)      -- $is_statically_sized (true) / $static_size_in_bits (false)
+  | lvirt (l : Loc) (df : FileId) (d : Expr) -- field_reference → virtual field of module df with read_transform d
+  | builtin (l : Loc) (b : Builtin)
   | bin (l : Loc) (op : BinOp) (a b : Expr)
   | choice (l : Loc) (c t f : Expr)
   | fn (l : Loc) (f : Fn) (args : List Expr)
   deriving Repr
 
 def Expr.loc : Expr → Loc
-  | .num l | .boolc l | .enumv l _ | .cphys l _ | .cvirt l _ | .cother l | .lparam l _
-  | .lparamArr l | .lphys l _ | .lvirt l _ | .builtin l _ | .bin l _ _ _ | .choice l _ _ _
+  | .num l | .boolc l | .enumv l _ | .cphys l _ _ | .cvirt l _ _ | .cother l | .lparam l _
+  | .lparamArr l | .lphys l _ | .lvirt l _ _ | .builtin l _ | .bin l _ _ _ | .choice l _ _ _
   | .fn l _ _ => l
 
 /-- `which_expression == "field_reference"`. -/
@@ -97,57 +102,46 @@ inductive Cls
   | cmpSame                  -- "Both arguments of operator 'op' must have the same type."
   | chCond | chTrue | chSame -- the three `?:` messages
   | staticPhys               -- "Static references to physical fields are not allowed."
-  | posStart | posSize | posArray | posExist
+  | staticOther              -- "Static references must refer to enum values or virtual fields."
+  | builtinCtx               -- "Keyword `$next` may not be used in this context."
+  | posStart | posSize | posArray | posExist | posEnumValue
   | paramArray | paramKind | passArity | passKind (i : Nat)
-  | attrBool | attrConstBool | attrInt | attrConst | attrStr
+  | attrBool | attrConstBool | attrInt | attrConst | attrStr | attrString
   deriving DecidableEq, Repr
 
-/-- Where the Python raises instead of reporting. -/
+/-- Where the Python still raises instead of reporting.  The first three read
+`.type.which_type` without `reader`; they are reached only when `annotate_types` left an
+expression / parameter untyped, i.e. after it reported an error (see `C13_total_partial`). -/
 inductive Crash
-  | constRefOther      -- type_check._type_check_constant_reference: assert False
-  | arrayParamRef      -- type_check._type_check_local_reference: None.reference
-  | passedTypeName     -- type_check._type_name_for_error_messages: assert False
-  | attrConstBoolExpr  -- attribute_util._is_constant_boolean: None.has_field
-  | attrBackEnds       -- attribute_checker._valid_back_ends: None.text
+  | paramTypeNone      -- type_check._type_check_parameter: None.which_type (array-typed parameter)
+  | passedTypeNone     -- type_check._type_name_for_error_messages: None.which_type
+  | attrTypeNone       -- attribute_util._is_boolean & co.: None.which_type
   | attrSignedNotLiteral -- ir_util.get_attribute: assert "Duplicate attribute" (via attribute_checker)
-  | cmpNone            -- type_check._type_check_comparison_operator: None.which_type
-  | chNone             -- type_check._type_check_choice_operator: None.which_type
-  | compatNone         -- type_check._types_are_compatible: None.which_type
   deriving DecidableEq, Repr
 
-/-- One error group: primary location, class, the locations of its notes, and whether the
-`source_file` of the message is a real file name (`bad = true`: as coded,
-`_type_check_local_reference` passes a `Reference` object where a file name is due). -/
+/-- One error group: primary location, the `source_file` of the primary message, class, and
+the (file, location) of its notes. -/
 structure Err where
   l : Loc
+  file : FileId
   cls : Cls
-  notes : List Loc
-  bad : Bool
+  notes : List (FileId × Loc)
   deriving DecidableEq, Repr
 
-def Err.markBad (e : Err) : Err := { e with bad := true }
-
 /-- `error.split_errors`: a group is hidden when any of its locations is synthetic. -/
-def Err.hidden (e : Err) : Bool := e.l.syn || e.notes.any (·.syn)
+def Err.hidden (e : Err) : Bool := e.l.syn || e.notes.any (·.2.syn)
 
 structure Res where
   ty : Ty
   errs : List Err
-  crash : Option Crash
   deriving Repr
 
-def Res.pure (t : Ty) : Res := ⟨t, [], none⟩
+def Res.pure (t : Ty) : Res := ⟨t, []⟩
 
 structure ResList where
   tys : List Ty
   errs : List Err
-  crash : Option Crash
   deriving Repr
-
-def orCrash (a b : Option Crash) : Option Crash :=
-  match a with
-  | some c => some c
-  | none => b
 
 def BinOp.isCmp : BinOp → Bool
   | .eq | .ne | .lt | .le | .gt | .ge => true
@@ -169,18 +163,19 @@ def cmpAcceptable (op : BinOp) (t : Ty) : Bool :=
     | .int | .enum _ => true
     | _ => false
 
-def err (l : Loc) (c : Cls) : Err := ⟨l, c, [], false⟩
+def err (f : FileId) (l : Loc) (c : Cls) : Err := ⟨l, f, c, []⟩
 
 /-- checks of one argument of a monomorphic operator/function. -/
-def argErr (want : Ty) (i : Nat) (a : Expr) (t : Ty) : List Err :=
-  if t = want then [] else [err a.loc (if want = .bool then .mustBool i else .mustInt i)]
+def argErr (f : FileId) (want : Ty) (i : Nat) (a : Expr) (t : Ty) : List Err :=
+  if t = want then [] else [err f a.loc (if want = .bool then .mustBool i else .mustInt i)]
 
-/-- per-argument checks for the n-ary functions: `zip(args, arg_names)`. -/
-def fnArgErrs (f : Fn) : Nat → List Expr → List Ty → List Err
+/-- per-argument checks for the n-ary functions: `zip(args, arg_names)` with one name per
+argument (`"Argument {}".format(n) for n in range(len(args))`): every argument is checked. -/
+def fnArgErrs (file : FileId) (f : Fn) : Nat → List Expr → List Ty → List Err
   | i, a :: as, t :: ts =>
     (match f with
-     | .present => if a.isFieldRef then [] else [err a.loc (.mustField i)]
-     | _ => argErr .int i a t) ++ fnArgErrs f (i + 1) as ts
+     | .present => if a.isFieldRef then [] else [err file a.loc (.mustField i)]
+     | _ => argErr file .int i a t) ++ fnArgErrs file f (i + 1) as ts
   | _, _, _ => []
 
 def Fn.arityOk (f : Fn) (n : Nat) : Bool :=
@@ -193,84 +188,70 @@ def Fn.result : Fn → Ty
   | _ => .int
 
 mutual
-/-- `_type_check_expression`: the annotated type, the errors appended, and the first crash. -/
-def tc : Expr → Res
+/-- `_type_check_expression` for an expression of module `file`: the annotated type and the
+errors appended (each with the file name it is reported under). -/
+def tc (file : FileId) : Expr → Res
   | .num _ => .pure .int
   | .boolc _ => .pure .bool
   | .enumv _ n => .pure (.enum n)
-  | .cphys l dl => ⟨.absent, [⟨l, .staticPhys, [dl], false⟩], none⟩
-  | .cvirt _ d =>
-    let r := tc d
-    { r with ty := r.ty.copied }
-  | .cother _ => ⟨.absent, [], some .constRefOther⟩
+  | .cphys l df dl => ⟨.none, [⟨l, file, .staticPhys, [(df, dl)]⟩]⟩
+  -- the referred definition is checked under *its* module's file name
+  | .cvirt _ df d => tc df d
+  | .cother l => ⟨.none, [err file l .staticOther]⟩
   | .lparam _ t => .pure t.toTy
-  | .lparamArr _ => ⟨.absent, [], some .arrayParamRef⟩
+  -- `_annotate_parameter_type` reports "Parameters cannot be arrays." at the declaration
+  | .lparamArr _ => .pure .opaque
   | .lphys _ t => .pure t.toTy
-  | .lvirt _ d =>
-    let r := tc d
-    -- an unannotated read_transform is re-checked through the reference, and the messages
-    -- of that re-check carry `expression.field_reference.path[0]` as their file name
-    ⟨r.ty.copied, if r.ty.annotated then r.errs else r.errs.map Err.markBad, r.crash⟩
-  | .builtin _ b => .pure (if b then .bool else .int)
+  | .lvirt _ df d => tc df d
+  | .builtin l b =>
+    match b with
+    | .isStaticallySized => .pure .bool
+    | .staticSizeInBits => .pure .int
+    | .other => ⟨.none, [err file l .builtinCtx]⟩
   | .bin l op a b =>
-    let ra := tc a
-    let rb := tc b
+    let ra := tc file a
+    let rb := tc file b
     let sub := ra.errs ++ rb.errs
-    let cr := orCrash ra.crash rb.crash
     if op.isCmp then
-      if ra.ty = .absent then ⟨.absent, sub, orCrash cr (some .cmpNone)⟩
-      else if !cmpAcceptable op ra.ty then ⟨.absent, sub ++ [err a.loc (.cmpArg 0)], cr⟩
-      else if rb.ty = .absent then ⟨.absent, sub, orCrash cr (some .cmpNone)⟩
-      else if !cmpAcceptable op rb.ty then ⟨.absent, sub ++ [err b.loc (.cmpArg 1)], cr⟩
-      else ⟨.bool, sub ++ (if ra.ty = rb.ty then [] else [err l .cmpSame]), cr⟩
+      if !cmpAcceptable op ra.ty then ⟨.none, sub ++ [err file a.loc (.cmpArg 0)]⟩
+      else if !cmpAcceptable op rb.ty then ⟨.none, sub ++ [err file b.loc (.cmpArg 1)]⟩
+      else ⟨.bool, sub ++ (if ra.ty = rb.ty then [] else [err file l .cmpSame])⟩
     else
-      ⟨op.mono, sub ++ argErr op.mono 0 a ra.ty ++ argErr op.mono 1 b rb.ty, cr⟩
+      ⟨op.mono, sub ++ argErr file op.mono 0 a ra.ty ++ argErr file op.mono 1 b rb.ty⟩
   | .choice l c t f =>
-    let rc := tc c
-    let rt := tc t
-    let rf := tc f
+    let rc := tc file c
+    let rt := tc file t
+    let rf := tc file f
     let sub := rc.errs ++ rt.errs ++ rf.errs
-    let cr := orCrash rc.crash (orCrash rt.crash rf.crash)
-    let e1 := if rc.ty = .bool then [] else [err c.loc .chCond]
-    if rc.ty = .absent ∨ rt.ty = .absent then ⟨.absent, sub, orCrash cr (some .chNone)⟩
-    else if !rt.ty.isValue then ⟨.absent, sub ++ e1 ++ [err t.loc .chTrue], cr⟩
-    else if rf.ty = .absent then ⟨.absent, sub, orCrash cr (some .compatNone)⟩
-    else ⟨rt.ty, sub ++ e1 ++ (if rt.ty = rf.ty then [] else [err l .chSame]), cr⟩
+    let e1 := if rc.ty = .bool then [] else [err file c.loc .chCond]
+    if !rt.ty.isValue then ⟨.none, sub ++ e1 ++ [err file t.loc .chTrue]⟩
+    else ⟨rt.ty, sub ++ e1 ++ (if rt.ty = rf.ty then [] else [err file l .chSame])⟩
   | .fn l f args =>
-    let rs := tcList args
+    let rs := tcList file args
     ⟨f.result,
-     rs.errs ++ fnArgErrs f 0 args rs.tys ++ (if f.arityOk args.length then [] else [err l .arity]),
-     rs.crash⟩
+     rs.errs ++ fnArgErrs file f 0 args rs.tys ++
+       (if f.arityOk args.length then [] else [err file l .arity])⟩
 /-- arguments left to right. -/
-def tcList : List Expr → ResList
-  | [] => ⟨[], [], none⟩
+def tcList (file : FileId) : List Expr → ResList
+  | [] => ⟨[], []⟩
   | e :: es =>
-    let r := tc e
-    let rs := tcList es
-    ⟨r.ty :: rs.tys, r.errs ++ rs.errs, orCrash r.crash rs.crash⟩
+    let r := tc file e
+    let rs := tcList file es
+    ⟨r.ty :: rs.tys, r.errs ++ rs.errs⟩
 end
 
 mutual
-/-- The expression and all its syntactic descendants (`function.args`, recursively) — what
-`fast_traverse_ir_top_down(..., [ArrayType, Expression], ...)` visits under an array type.
-References are leaves: the referred definition is not a child. -/
-def subexprs : Expr → List Expr
-  | .bin l op a b => .bin l op a b :: (subexprs a ++ subexprs b)
-  | .choice l c t f => .choice l c t f :: (subexprs c ++ (subexprs t ++ subexprs f))
-  | .fn l f args => .fn l f args :: subexprsList args
-  | e => [e]
-def subexprsList : List Expr → List Expr
-  | [] => []
-  | e :: es => subexprs e ++ subexprsList es
-end
-
-mutual
-/-- closed = mentions no parameter / physical field: the model's stand-in for
-`ir_util.is_constant` after `compute_constants` (constant folding itself is C05's). -/
+/-- closed = mentions no parameter, physical field or builtin (`constant_value` gives `None`
+for each of them), however deep and through references: the model's stand-in for
+`ir_util.is_constant` / `type.boolean.has_field("value")` after `compute_constants`.  The two
+agree except on values that the three-valued `&&`/`||`/`?:` folding or the bounds analysis
+makes constant although they mention a field (`false && x == 1`, `$upper_bound(x)`, a static
+reference to `let v = x * 0`); those are C05's and kept out of the correspondence. -/
 def closed : Expr → Bool
-  | .num _ | .boolc _ | .enumv _ _ | .builtin _ _ => true
+  | .num _ | .boolc _ | .enumv _ _ => true
+  | .builtin _ _ => false
   | .cphys .. | .cother _ | .lparam .. | .lparamArr _ | .lphys .. => false
-  | .cvirt _ d | .lvirt _ d => closed d
+  | .cvirt _ _ d | .lvirt _ _ d => closed d
   | .bin _ _ a b => closed a && closed b
   | .choice _ c t f => closed c && (closed t && closed f)
   | .fn _ _ args => closedList args
@@ -289,27 +270,31 @@ inductive PTy
   deriving DecidableEq, Repr
 
 structure Param where
+  file : FileId
   l : Loc            -- physical_type_alias.source_location
   pty : PTy
   deriving Repr
 
+/-- `RuntimeParameter.type` after `_annotate_parameter_type` (left unset for arrays). -/
 def Param.ty (p : Param) : Ty :=
   match p.pty with
-  | .array => .unset
+  | .array => .none
   | .atomic t => t.toTy
 
-/-- An `AtomicType` use with its passed runtime parameters; `expected` are the
-`(type, source_location)` of the referenced definition's parameters. -/
+/-- An `AtomicType` use (in module `file`) with its passed runtime parameters; `expected`
+are the `(type, source_location)` of the referenced definition's parameters, `defFile` /
+`defLoc` where that definition is. -/
 structure Passed where
+  file : FileId
   l : Loc
+  defFile : FileId
   defLoc : Loc
   expected : List (Ty × Loc)
   given : List Expr
   deriving Repr
 
 inductive AKind
-  | boolConstSigned   -- is_signed
-  | boolConstInteger  -- is_integer
+  | boolConst         -- is_signed, is_integer
   | bool              -- requires, static_requirements
   | intConst          -- addressable_unit_size, maximum_bits, fixed_size_in_bits
   | strList           -- byte_order, text_output
@@ -322,19 +307,24 @@ inductive AVal
   deriving Repr
 
 structure Attr where
+  file : FileId
   l : Loc            -- attr.value.source_location
   kind : AKind
+  isSigned : Bool    -- the attribute is `is_signed` (for `attrLate`)
   val : AVal
   deriving Repr
 
+/-- A located top-level expression: the module file it is written in and the expression. -/
+abbrev FExpr := FileId × Expr
+
 structure Module where
-  exprs : List Expr                 -- every top-level Expression of the IR (traversal order)
+  exprs : List FExpr                -- every top-level Expression of the IR (traversal order)
   params : List Param
-  locations : List (Expr × Expr)    -- FieldLocation start, size
-  arrays : List Expr                -- ArrayType.element_count
-  conds : List Expr                 -- Field.existence_condition
+  locations : List (FileId × Expr × Expr)  -- FieldLocation start, size
+  arrays : List FExpr               -- ArrayType.element_count
+  conds : List FExpr                -- Field.existence_condition
+  enumValues : List FExpr           -- EnumValue.value
   passed : List Passed
-  enumValues : List Expr            -- EnumValue.value (not inspected by check_types, as coded)
   attrs : List Attr
   deriving Repr
 
@@ -343,80 +333,96 @@ structure PassRes where
   crash : Option Crash
   deriving Repr
 
+def orCrash (a b : Option Crash) : Option Crash :=
+  match a with
+  | some c => some c
+  | none => b
+
 def PassRes.app (a b : PassRes) : PassRes := ⟨a.errs ++ b.errs, orCrash a.crash b.crash⟩
 
-/-- `annotate_types`: every expression, then `_annotate_parameter_type`. -/
-def annotate (m : Module) : PassRes :=
-  let rs := tcList m.exprs
-  ⟨rs.errs ++ m.params.flatMap (fun p => if p.pty = .array then [err p.l .paramArray] else []),
-   rs.crash⟩
+def tcAll : List FExpr → List Err
+  | [] => []
+  | e :: es => (tc e.1 e.2).errs ++ tcAll es
 
-def wantTy (want : Ty) (c : Cls) (e : Expr) : List Err :=
-  if (tc e).ty = want then [] else [err e.loc c]
+/-- `annotate_types`: every expression, then `_annotate_parameter_type`.  Nothing in it raises. -/
+def annotate (m : Module) : List Err :=
+  tcAll m.exprs ++
+    m.params.flatMap (fun p => if p.pty = .array then [err p.file p.l .paramArray] else [])
 
-/-- `_type_name_for_error_messages` is defined on integer and enumeration only. -/
-def Ty.hasName : Ty → Bool
+def wantTy (want : Ty) (c : Cls) (e : FExpr) : List Err :=
+  if (tc e.1 e.2).ty = want then [] else [err e.1 e.2.loc c]
+
+/-- `_type_check_enum_value`: integer, or (as coded, pinned by expression_bounds_test) an
+expression of enum type such as `TEN = TEN2`. -/
+def enumValueOk : Ty → Bool
   | .int | .enum _ => true
   | _ => false
 
-/-- `which_type` only: two enumerations compare equal here, as coded. -/
-def sameWhich : Ty → Ty → Bool
-  | .int, .int | .bool, .bool | .enum _, .enum _ | .opaque, .opaque | .unset, .unset
-  | .absent, .absent => true
-  | _, _ => false
+/-- `_type_check_parameter`. -/
+def paramOne (p : Param) : PassRes :=
+  match p.ty with
+  | .int | .enum _ => ⟨[], none⟩
+  | .none => ⟨[], some .paramTypeNone⟩
+  | _ => ⟨[err p.file p.l .paramKind], none⟩
 
-def passedArgs : Nat → List (Ty × Loc) → List Expr → PassRes
+def paramAll : List Param → PassRes
+  | [] => ⟨[], none⟩
+  | p :: ps => (paramOne p).app (paramAll ps)
+
+/-- the loop of `_type_check_passed_parameters`: `_types_are_compatible` is type equality
+(enums by module file + path); the message names both types. -/
+def passedArgs (p : Passed) : Nat → List (Ty × Loc) → List Expr → PassRes
   | i, (t, pl) :: ts, g :: gs =>
-    let rest := passedArgs (i + 1) ts gs
+    let rest := passedArgs p (i + 1) ts gs
     if !t.isValue then rest
     else
-      let gt := (tc g).ty
-      if sameWhich gt t then rest
-      else if t.hasName && gt.hasName then ⟨⟨g.loc, .passKind i, [pl], false⟩ :: rest.errs, rest.crash⟩
-      else ⟨[], some .passedTypeName⟩
+      let gt := (tc p.file g).ty
+      if gt = t then rest
+      else if gt = .none then ⟨[], some .passedTypeNone⟩
+      else ⟨⟨g.loc, p.file, .passKind i, [(p.defFile, pl)]⟩ :: rest.errs, rest.crash⟩
   | _, _, _ => ⟨[], none⟩
 
 def passedOne (p : Passed) : PassRes :=
-  if p.expected.length ≠ p.given.length then ⟨[⟨p.l, .passArity, [p.defLoc], false⟩], none⟩
-  else passedArgs 0 p.expected p.given
+  if p.expected.length ≠ p.given.length then
+    ⟨[⟨p.l, p.file, .passArity, [(p.defFile, p.defLoc)]⟩], none⟩
+  else passedArgs p 0 p.expected p.given
 
 def passedAll : List Passed → PassRes
   | [] => ⟨[], none⟩
   | p :: ps => (passedOne p).app (passedAll ps)
 
-/-- `check_types`, in the order of its five traversals. -/
+/-- `check_types`, in the order of its six traversals. -/
 def checkTypes (m : Module) : PassRes :=
-  let e1 := m.locations.flatMap (fun p => wantTy .int .posStart p.1 ++ wantTy .int .posSize p.2)
-  -- as coded, *every* expression below an ArrayType must be an integer, not only the count
-  let e2 := m.arrays.flatMap (fun a => (subexprs a).flatMap (wantTy .int .posArray))
+  let e1 := m.locations.flatMap (fun p =>
+    wantTy .int .posStart (p.1, p.2.1) ++ wantTy .int .posSize (p.1, p.2.2))
+  -- since e20b103 only the length itself, not its sub-expressions
+  let e2 := m.arrays.flatMap (wantTy .int .posArray)
   let e3 := m.conds.flatMap (wantTy .bool .posExist)
-  let e4 := m.params.flatMap (fun p =>
-    match p.ty with
-    | .int | .enum _ => []
-    | _ => [err p.l .paramKind])
-  (PassRes.mk (e1 ++ e2 ++ e3 ++ e4) none).app (passedAll m.passed)
+  let e4 := m.enumValues.flatMap (fun v =>
+    if enumValueOk (tc v.1 v.2).ty then [] else [err v.1 v.2.loc .posEnumValue])
+  ((PassRes.mk (e1 ++ e2 ++ e3 ++ e4) none).app (paramAll m.params)).app (passedAll m.passed)
 
 /-- attribute value typing (`attribute_util` validators as wired up by `attribute_checker`). -/
 def attrOne (a : Attr) : PassRes :=
   match a.kind, a.val with
-  | .boolConstSigned, .str _ | .boolConstInteger, .str _ => ⟨[err a.l .attrConstBool], none⟩
-  | .boolConstSigned, .expr e =>
-    if (tc e).ty ≠ .bool then ⟨[], some .attrConstBoolExpr⟩
-    else if !closed e then ⟨[err a.l .attrConstBool], none⟩
+  | .boolConst, .str _ => ⟨[err a.file a.l .attrConstBool], none⟩
+  | .boolConst, .expr e =>
+    if (tc a.file e).ty = .none then ⟨[], some .attrTypeNone⟩
+    else if (tc a.file e).ty ≠ .bool || !closed e then ⟨[err a.file a.l .attrConstBool], none⟩
     else ⟨[], none⟩
-  | .boolConstInteger, .expr e =>
-    if (tc e).ty ≠ .bool then ⟨[], some .attrConstBoolExpr⟩
-    else if !closed e then ⟨[err a.l .attrConstBool], none⟩
-    else ⟨[], none⟩
-  | .bool, .str _ => ⟨[err a.l .attrBool], none⟩
-  | .bool, .expr e => ⟨if (tc e).ty = .bool then [] else [err a.l .attrBool], none⟩
-  | .intConst, .str _ => ⟨[err a.l .attrInt], none⟩
+  | .bool, .str _ => ⟨[err a.file a.l .attrBool], none⟩
+  | .bool, .expr e =>
+    if (tc a.file e).ty = .none then ⟨[], some .attrTypeNone⟩
+    else ⟨if (tc a.file e).ty = .bool then [] else [err a.file a.l .attrBool], none⟩
+  | .intConst, .str _ => ⟨[err a.file a.l .attrInt], none⟩
   | .intConst, .expr e =>
-    ⟨if (tc e).ty ≠ .int then [err a.l .attrInt] else if !closed e then [err a.l .attrConst] else [], none⟩
-  | .strList, .str v => ⟨if v then [] else [err a.l .attrStr], none⟩
-  | .strList, .expr _ => ⟨[err a.l .attrStr], none⟩
-  | .backEnds, .str v => ⟨if v then [] else [err a.l .attrStr], none⟩
-  | .backEnds, .expr _ => ⟨[], some .attrBackEnds⟩
+    if (tc a.file e).ty = .none then ⟨[], some .attrTypeNone⟩
+    else ⟨if (tc a.file e).ty ≠ .int then [err a.file a.l .attrInt]
+          else if !closed e then [err a.file a.l .attrConst] else [], none⟩
+  | .strList, .str v => ⟨if v then [] else [err a.file a.l .attrStr], none⟩
+  | .strList, .expr _ => ⟨[err a.file a.l .attrStr], none⟩
+  | .backEnds, .str v => ⟨if v then [] else [err a.file a.l .attrStr], none⟩
+  | .backEnds, .expr _ => ⟨[err a.file a.l .attrString], none⟩
 
 def attrAll : List Attr → PassRes
   | [] => ⟨[], none⟩
@@ -424,13 +430,13 @@ def attrAll : List Attr → PassRes
 
 /-- After the validators: `_add_missing_width_and_sign_attributes_on_enum` recognises only a
 *literal* `true`/`false` as "is_signed present", appends a second `is_signed`, and the next
-`ir_util.get_attribute` trips its duplicate assertion. -/
+`ir_util.get_attribute` trips its duplicate assertion (open finding). -/
 def attrLate : List Attr → Option Crash
   | [] => none
   | a :: as =>
-    match a.kind, a.val with
-    | .boolConstSigned, .expr (.boolc _) => attrLate as
-    | .boolConstSigned, .expr _ => some .attrSignedNotLiteral
+    match a.isSigned, a.val with
+    | true, .expr (.boolc _) => attrLate as
+    | true, .expr _ => some .attrSignedNotLiteral
     | _, _ => attrLate as
 
 inductive Outcome
@@ -443,24 +449,21 @@ inductive Outcome
 stops the pipeline; hidden (synthetic) ones are deferred to the end. -/
 def run (m : Module) : Outcome :=
   let a := annotate m
-  match a.crash with
-  | some c => .crashed c
+  if (a.filter (!·.hidden)) ≠ [] then .rejected 1 (a.filter (!·.hidden)) else
+  let c := checkTypes m
+  match c.crash with
+  | some k => .crashed k
   | none =>
-    if (a.errs.filter (!·.hidden)) ≠ [] then .rejected 1 (a.errs.filter (!·.hidden)) else
-    let c := checkTypes m
-    match c.crash with
+    if (c.errs.filter (!·.hidden)) ≠ [] then .rejected 2 (c.errs.filter (!·.hidden)) else
+    let t := attrAll m.attrs
+    match t.crash with
     | some k => .crashed k
     | none =>
-      if (c.errs.filter (!·.hidden)) ≠ [] then .rejected 2 (c.errs.filter (!·.hidden)) else
-      let t := attrAll m.attrs
-      match t.crash with
+      if (t.errs.filter (!·.hidden)) ≠ [] then .rejected 3 (t.errs.filter (!·.hidden)) else
+      match attrLate m.attrs with
       | some k => .crashed k
       | none =>
-        if (t.errs.filter (!·.hidden)) ≠ [] then .rejected 3 (t.errs.filter (!·.hidden)) else
-        match attrLate m.attrs with
-        | some k => .crashed k
-        | none =>
-        let hid := (a.errs ++ c.errs ++ t.errs).filter (·.hidden)
-        if hid ≠ [] then .rejected 9 hid else .accepted
+      let hid := (a ++ c.errs ++ t.errs).filter (·.hidden)
+      if hid ≠ [] then .rejected 9 hid else .accepted
 
 end Emboss.Types
